@@ -120,6 +120,18 @@ func c3Inst(named map[string]*types.StructType, s string) c3inst {
 	var in c3inst
 	if len(f) == 4 {
 		x := f[3]
+		// a continuation descriptor may be followed by the attachments (`…:M…`: printed at the end of the LAST line of the instruction)
+		if i := strings.Index(x, ":M"); i >= 0 && x[0] != 'M' {
+			for _, ms := range strings.Split(x[i+2:], "&") {
+				g := strings.SplitN(ms, "=", 2)
+				id, err := strconv.ParseInt(g[1], 10, 64)
+				if err != nil {
+					panic("harness: bad attachment descriptor " + x)
+				}
+				in.mds = append(in.mds, c3md{string(unhexArg(g[0])), id})
+			}
+			x = x[:i]
+		}
 		switch x[0] {
 		case 'S':
 			if x != "S-" {
